@@ -26,6 +26,15 @@ FAMILIES = {
         "n": {"quick": 160, "thorough": 4000},
         "shard": 10, "procs": 8,
     },
+
+    "reg": {
+        "family": "reg",
+        "coq_modules": ["Registry", "RegTrace"],
+        "in_type": "rcase", "obs_type": "list robs",
+        "corr": "reg_corr_ok", "chk": "reg_chk_ok", "model": "reg_model",
+        "n": {"quick": 400, "thorough": 8000},
+        "shard": 40, "procs": 4,
+    },
 }
 
 NOT_YET = {}
@@ -61,6 +70,12 @@ PROPS = {
     "C09": _kv("C09", "Sequential part proved on the model's store: the backfill of a feed started from CAS s is, in CAS order, exactly the current version of every document of the collection (tombstones included) with CAS >= s (C09_complete, C09_sorted, C09_from_start, for every reachable store: C09_tables_ok), each rendered by the same function as live events (C09_same_rendering, C09_live_equals_stored). The executable trace checker (dump feeds from generated start CAS values: 0, a document's CAS, CAS+1, stale, beyond) is evaluated on implementation traces and on the model's traces; that it accepts every model trace is checked by evaluation, not proved. The no-gap half (StartDCPFeed racing writers) is not proved here: partial.", model_chk=True),
     "C11": _kv("C11", "Proved on the model's store for every reachable store and every entry point: a call addressed to collection c leaves documents, backfill, identity and feeds of every other collection unchanged (C11_frame); DropDataStore removes exactly the collection's rows and entry (C11_drop); re-creation yields a fresh id with no documents (C11_recreate). Views and SQL queries of other collections are covered under C12/C19 models. The executable trace checker is evaluated on implementation and model traces (acceptance of model traces checked by evaluation).", model_chk=True),
     "C18": _kv("C18", "Proved on Json.v for all documents, paths and values: a sub-document write leaves every property on a diverging path unchanged (C18_frame), the addressed property reads back as the written value (C18_set) or as absent after removal (C18_remove); CAS honoured / failure changes nothing is the C02 theorem (C18_cas). The trace checker restates WriteSubDoc/SubdocInsert/GetSubDocRaw as upsert_path/eval_path over the parsed read-back and is evaluated on implementation and model traces (acceptance of model traces checked by evaluation). The concurrent no-lost-update half is part of the interleaving model: partial.", model_chk=True),
+    "C13": {
+        "families": [{"family": "reg", "model_chk": True, "model_chk_fn": "kv_model_chk_reg"}],
+        "level_text": "Proved on the registry model (Registry.v: cluster.buckets, cluster.bucketCount, store instances, handles, OpenBucket modes, Close, CloseAndDelete) for all histories over any handles, names and URLs: the reference count of a registered bucket equals the number of handles opened on it and not closed (C13_refcount, invariant rinv for every reachable state), and closing a handle - even twice - changes neither the status nor the data seen through any other handle (C13_close_is_local). Open-mode outcomes, data survival across reopen, removal by CloseAndDelete and the bucket-closed error are decided by the executable checker on implementation traces and by exact correspondence with the model; that the checker accepts every model trace is checked by evaluation. Concurrent opens/closes are not modelled: partial.",
+        "level_note": "Histories exclude Close/CloseAndDelete through a stale handle of a deleted or fully closed bucket whose name has been opened again (unregisterBucket is keyed by name and would release the new bucket's reference; recorded as a limit in DESIGN.md). cluster.lock is assumed to make each registry action atomic. Trusted: Coq kernel + vm_compute, Go harness.",
+        "assumptions": ["each OpenBucket / Close / CloseAndDelete is one atomic step (cluster.lock, bucket.mutex)", "no stale handle of a re-created bucket name is closed or deleted (op_ok)", "file system: os.Mkdir/os.Remove behave as a map from URL to directory"],
+    },
     "C17": _kv("C17", "Full proof on the model: every successful mutation through any entry point raises the key's revision number by exactly one (1 on creation or re-creation after purge), failed calls leave it, and live events carry the stored number (C17_holds, all histories)."),
     "C04": {
         "families": [{"family": "c04"}],
